@@ -2,6 +2,7 @@ use hashbrown::{HashMap, HashSet};
 
 use crate::adt::{AdtMetadata, FieldPosition};
 use crate::evolution::SerializedEvolutionStep;
+use crate::serializer::StoreStringResult;
 use crate::{
     BinaryOutput, BinarySerializer, Error, Evolution, Result, SerializationContext,
     DEFAULT_CAPACITY,
@@ -13,6 +14,7 @@ pub struct AdtSerializer<'a, 'b, Output: BinaryOutput> {
     buffers: Vec<Option<Vec<u8>>>, // TODO: We can avoid this completely by generating the write_fields in the proper order
     last_index_per_chunk: HashMap<u8, u8>,
     field_indices: HashMap<String, FieldPosition>,
+    header_names: Vec<Option<StoreStringResult>>,
 }
 
 impl<'a, 'b, Output: BinaryOutput> AdtSerializer<'a, 'b, Output> {
@@ -28,11 +30,29 @@ impl<'a, 'b, Output: BinaryOutput> AdtSerializer<'a, 'b, Output> {
             buffers: Vec::new(),
             last_index_per_chunk: HashMap::new(),
             field_indices: HashMap::new(),
+            header_names: Vec::new(),
         }
     }
 
     pub fn new(metadata: &'a AdtMetadata, context: &'b mut SerializationContext<Output>) -> Self {
         context.write_u8(metadata.version);
+        // The evolution header precedes the chunks in the stream, so the field names it carries
+        // must get their string ids before any string written by the fields.
+        let header_names = metadata
+            .evolution_steps
+            .iter()
+            .map(|evolution| match evolution {
+                Evolution::FieldRemoved { name } | Evolution::FieldMadeTransient { name } => {
+                    Some(context.state_mut().store_string(name.clone()))
+                }
+                Evolution::FieldMadeOptional { name }
+                    if metadata.removed_fields.contains(name) =>
+                {
+                    Some(context.state_mut().store_string(name.clone()))
+                }
+                _ => None,
+            })
+            .collect();
         Self {
             metadata,
             context,
@@ -41,6 +61,7 @@ impl<'a, 'b, Output: BinaryOutput> AdtSerializer<'a, 'b, Output> {
                 .collect(),
             last_index_per_chunk: HashMap::new(),
             field_indices: HashMap::new(),
+            header_names,
         }
     }
 
@@ -106,6 +127,10 @@ impl<'a, 'b, Output: BinaryOutput> AdtSerializer<'a, 'b, Output> {
         removed_fields: &HashSet<String>,
     ) -> Result<()> {
         for (v, evolution) in evolution_steps.iter().enumerate() {
+            if let Some(name) = self.header_names[v].take() {
+                SerializedEvolutionStep::serialize_field_removed(name, self.context)?;
+                continue;
+            }
             let step = match evolution {
                 Evolution::InitialVersion => {
                     let size = self.buffers[v].as_ref().unwrap().len().try_into()?;
